@@ -90,7 +90,7 @@ CLAIMED = {
     "C12": dict(
         technique="Lean 4 proof (first-input partition and exact filtering) + differential correspondence + direct specification oracle",
         text=("Theorems: the first slot is partitioned into compatibility subgroups (order preserved, each later member matches an earlier one, a new subgroup only when none matches), other slots are exactly the filter of the "
-              "positional slot by the emitted subgroup, and the three relations meet their documentation. Tied on C11's configurations with varied ref/alt alleles."),
+              "positional slot by the emitted subgroup, and the three relations meet their documentation. Tied on C11's configurations with varied ref/alt alleles. Tie by translation: the relation methods AlleleOverlapType.equality / intersects / subset are translated from the working tree on every run (Generated/Bodies.lean) and C12Bodies.relations_eq_model states, by induction over the interpreter's loops, that interpreting them equals the model's AlleleRel.test for all lists of allele texts."),
         note="positional groups come from C11",
         design="§6 C12"),
     "C13": dict(
